@@ -298,7 +298,12 @@ def gen_types(tsrc):
 
 
 def lean_str(s):
-    return '"' + s.replace('\\', '\\\\').replace('"', '\\"') + '"'
+    """a C string as the list of its bytes (kernel-reducible, unlike `String`); the spelling goes into a comment"""
+    return '[' + ', '.join(str(ord(c)) for c in s) + ']'
+
+
+def spell(s):
+    return '"' + s.replace('-/', '- /') + '"'
 
 
 def gen_pp_int(src):
@@ -444,15 +449,17 @@ def gen_pp_int(src):
     out += 'inductive NextByte | any | xdigit | oneOf (cs : List Nat)\n  deriving DecidableEq, Repr\n\n'
     out += '/-- one arm of the base-prefix ladder of `convert_pp_int`: the token starts with `text` (ASCII case ignored if\n'
     out += '    `caseInsensitive`: `strncasecmp`) and the next byte passes `next`; then `skip` bytes are skipped and the base is `base` -/\n'
-    out += 'structure BasePrefix where\n  text : String\n  caseInsensitive : Bool\n  next : NextByte\n  skip : Nat\n  base : Nat\n  deriving DecidableEq, Repr\n\n'
+    out += 'structure BasePrefix where\n  text : List Nat\n  caseInsensitive : Bool\n  next : NextByte\n  skip : Nat\n  base : Nat\n  deriving DecidableEq, Repr\n\n'
     out += 'def basePrefixes : List BasePrefix := [\n'
-    out += ',\n'.join(f'  ⟨{lean_str(t)}, {"true" if ci else "false"}, {nx}, {sk}, {b}⟩' for t, ci, nx, sk, b in prefixes) + '\n]\n\n'
+    out += ',\n'.join(f'  ⟨{lean_str(t)}, {"true" if ci else "false"}, {nx}, {sk}, {b}⟩' for t, ci, nx, sk, b in prefixes) + '\n]\n'
+    out += '-- spellings: ' + ' '.join(spell(t) for t, *_ in prefixes) + '\n\n'
     out += f'def defaultBase : Nat := {default_base}\n\n'
     out += '/-- one arm of the suffix ladder: alternatives `(text, caseInsensitive)`, bytes skipped, then the values of `l` and `u` -/\n'
-    out += 'structure SuffixArm where\n  pats : List (String × Bool)\n  skip : Nat\n  l : Bool\n  u : Bool\n  deriving DecidableEq, Repr\n\n'
+    out += 'structure SuffixArm where\n  pats : List (List Nat × Bool)\n  skip : Nat\n  l : Bool\n  u : Bool\n  deriving DecidableEq, Repr\n\n'
     out += 'def suffixArms : List SuffixArm := [\n'
     out += ',\n'.join('  ⟨[' + ', '.join(f'({lean_str(t)}, {"true" if ci else "false"})' for t, ci in pats) + f'], {sk}, {"true" if l else "false"}, {"true" if u else "false"}⟩'
-                      for pats, sk, l, u in sufarms) + '\n]\n\n'
+                      for pats, sk, l, u in sufarms) + '\n]\n'
+    out += '-- spellings: ' + ' | '.join(' '.join(spell(t) for t, _ in pats) for pats, *_ in sufarms) + '\n\n'
     out += '/-- the type ladder of `convert_pp_int` (`val` is `int64_t`: `>>` is an arithmetic shift, a value is true iff non-zero) -/\n'
     out += f'def intLitType (base : Nat) (l u : Bool) (val : BitVec 64) : Ty :=\n  {lad}\n'
     return out
@@ -663,11 +670,13 @@ def gen_dispatch(src):
     # order matters: arms are tried in source order
     out = 'inductive StrReader | narrow | utf16 | utf32\n  deriving DecidableEq, Repr\n\n'
     out += '/-- tokenize(): string-literal prefixes in the order they are tested, with the reader and the element type -/\n'
-    out += 'def stringPrefixes : List (String × StrReader × Ty) := [' + ', '.join(f'({lean_str(p)}, {r}, .{t})' for p, r, t in strs) + ']\n\n'
+    out += 'def stringPrefixes : List (List Nat × StrReader × Ty) := [' + ', '.join(f'({lean_str(p)}, {r}, .{t})' for p, r, t in strs) + ']\n'
+    out += '-- spellings: ' + ' '.join(spell(p) for p, *_ in strs) + '\n\n'
     out += '/-- what tokenize() does to `tok->val` after `read_char_literal` -/\n'
     out += 'inductive CharPost | none | castChar | mask (m : Nat)\n  deriving DecidableEq, Repr\n\n'
     out += '/-- tokenize(): character-constant prefixes in the order they are tested, with the type and the post-processing -/\n'
-    out += 'def charPrefixes : List (String × Ty × CharPost) := [' + ', '.join(f'({lean_str(p)}, .{t}, {po})' for p, t, po in chars) + ']\n'
+    out += 'def charPrefixes : List (List Nat × Ty × CharPost) := [' + ', '.join(f'({lean_str(p)}, .{t}, {po})' for p, t, po in chars) + ']\n'
+    out += '-- spellings: ' + ' '.join(spell(p) for p, *_ in chars) + '\n'
     return out
 
 
